@@ -97,15 +97,17 @@ theorem C05_chain_completes (w : World) (r : WReq) (dest : Nat) (f : Bool) (sr :
     changes copies, requests or storage, then on this host's usable nodes no wanted suspect copy
     is left without a verdict, every copy `update_delete` selects is held back by the
     deletion-safety rule, and every pending request into a group served by this host is blocked
-    for a documented reason or is dispatched to the transport -/
+    for a documented reason or is dispatched to the transport.  "Every pending request" is restricted to the first
+    pending request per file and group (`FirstPending`): the code examines one request per file and pass (`seen_files`),
+    and a later duplicate stays pending behind it for a reason the property does not list — the known finding F16,
+    reproduced on the real code by the check's corpus; `C05_shadowed_not_examined` states it for the model. -/
 theorem C05_fixed_point_classified (w : World) (hv : HostView) (hwf : w.WellFormed)
     (hfix : ∀ op ∈ iterateOps w hv, (w.wstep op).1.copies = w.copies ∧ (w.wstep op).1.reqs = w.reqs ∧
         (w.wstep op).1.disk = w.disk) :
     (∀ c ∈ w.copies, c.node ∈ w.usableIds hv → ¬ (c.has = .M ∧ c.wants ≠ .N)) ∧
     (∀ n ∈ w.usableIds hv, ∀ id ∈ w.updateDelete n, ∀ c ∈ w.copies, c.id = id →
         w.archiveCount c.file < World.copiesRequired (w.isArchive c.node)) ∧
-    (∀ r ∈ w.reqs, r.completed = false → r.cancelled = false →
-        (∃ n ∈ w.nodes, n.group = r.groupTo ∧ n.id ∈ w.usableIds hv) →
+    (∀ r ∈ w.reqs, r.cancelled = false → w.FirstPending hv r →
         (w.reqBlocked hv r true = true ∨ ∃ f, w.updatePull r true = .dispatch f)) := by
   refine ⟨?_, ?_, ?_⟩
   · rintro c hc hn ⟨hM, hw⟩
@@ -129,8 +131,8 @@ theorem C05_fixed_point_classified (w : World) (hv : HostView) (hwf : w.WellForm
     have := eq_of_id_eq w.copies hwf.ids hc' hc hid'
     subst this
     exact hne h2.symm
-  · intro r hr hc hx hg
-    have hfx := (hfix _ (mem_iterateOps_decide w hv r hr hc hx hg)).2.1
+  · intro r hr hx hfirst
+    have hfx := (hfix _ (mem_iterateOps_decide w hv r hfirst)).2.1
     change (w.applyDecision r (w.updatePull r true)).1.reqs = w.reqs at hfx
     have hcancel : ∀ d, (d = PullDecision.cancelPresent ∨ d = .cancelSourceMissing) →
         w.updatePull r true ≠ d := by
@@ -149,5 +151,27 @@ theorem C05_fixed_point_classified (w : World) (hv : HostView) (hwf : w.WellForm
     · left; unfold reqBlocked; rw [hu]; simp
     · left; unfold reqBlocked; rw [hu]; simp
     · exact Or.inr ⟨f, hu⟩
+
+/-- the flip side (F16): a pending request behind an earlier pending request for the same file into the same group
+    is not examined by the pass, whatever the state of the earlier one -/
+theorem C05_shadowed_not_examined (w : World) (hv : HostView) (r q : WReq)
+    (hq : WOp.decide q true ∈ iterateOps w hv) (hr : WOp.decide r true ∈ iterateOps w hv)
+    (hk : (q.file, q.groupTo) = (r.file, r.groupTo)) : q = r := by
+  have key : ∀ x, WOp.decide x true ∈ iterateOps w hv → x ∈ firstPerFile [] (w.pendingInto hv) := by
+    intro x hx
+    unfold iterateOps at hx
+    simp only [List.mem_append] at hx
+    rcases hx with (hx | hx) | hx
+    · obtain ⟨c, _, hc⟩ := List.mem_map.mp hx; cases hc
+    · obtain ⟨m, _, hx⟩ := List.mem_flatMap.mp hx
+      obtain ⟨id, _, hopt⟩ := List.mem_filterMap.mp hx
+      cases hf : w.copies.find? (·.id == id) <;> simp [hf] at hopt
+    · obtain ⟨y, hy, hyx⟩ := List.mem_map.mp hx
+      injection hyx with h1 _
+      exact h1 ▸ hy
+  have hpw := firstPerFile_pairwise [] (w.pendingInto hv)
+  have hq' := key q hq
+  have hr' := key r hr
+  exact eq_of_key_eq_of_pairwise (fun x : WReq => (x.file, x.groupTo)) _ hpw q hq' r hr' hk
 
 end Alpen
